@@ -35,9 +35,13 @@ def check_cache(
     from hypergraph.cache import compute_cache_key
 
     # The function alone does not identify the entry: two nodes built from one
-    # function may differ in output names, and two gates in their targets (the
-    # cached routing decision is a target name).
-    identity = f"{node.definition_hash}:{node.outputs!r}:{getattr(node, 'targets', None)!r}"
+    # function may differ in output names, and two gates in their targets,
+    # fallback or multi_target mode (the cached routing decision is a target
+    # name that already has the fallback applied).
+    identity = (
+        f"{node.definition_hash}:{node.outputs!r}:{getattr(node, 'targets', None)!r}"
+        f":{getattr(node, 'fallback', None)!r}:{getattr(node, 'multi_target', None)!r}"
+    )
     cache_key = compute_cache_key(identity, inputs)
     if not cache_key:
         return "", None
